@@ -5,12 +5,12 @@ package main
 
 import (
 	"bytes"
-	"os"
 	"crypto/sha256"
 	"encoding/base64"
 	"encoding/hex"
 	"encoding/json"
 	"fmt"
+	"os"
 	"sort"
 	"strings"
 
@@ -95,16 +95,20 @@ func (e editSpec) apply(b []byte) []byte {
 }
 
 type fileSpec struct {
-	Parts []string   `json:"parts,omitempty"` // corpus member names, concatenated
-	Text  string     `json:"text,omitempty"`
-	B64   string     `json:"b64,omitempty"`
-	Edits []editSpec `json:"edits,omitempty"`
+	Repeat int        `json:"repeat,omitempty"` // the parts are repeated this many times
+	Parts  []string   `json:"parts,omitempty"`  // corpus member names, concatenated
+	Text   string     `json:"text,omitempty"`
+	B64    string     `json:"b64,omitempty"`
+	Edits  []editSpec `json:"edits,omitempty"`
 }
 
 func (f fileSpec) bytes() []byte {
 	var b []byte
 	for _, p := range f.Parts {
 		b = append(b, corpus.Get(p)...)
+	}
+	if f.Repeat > 1 {
+		b = bytes.Repeat(b, f.Repeat)
 	}
 	b = append(b, f.Text...)
 	if f.B64 != "" {
@@ -132,7 +136,7 @@ type runStep struct {
 }
 
 type diskStep struct {
-	Kind  string `json:"kind"` // flip | truncate | extend | copyto | delete
+	Kind  string `json:"kind"`  // flip | truncate | extend | copyto | delete
 	Entry int    `json:"entry"` // index into the sorted list of cache entries (mod count)
 	At    int    `json:"at,omitempty"`
 	Mask  int    `json:"mask,omitempty"`
@@ -705,6 +709,9 @@ func (x *cliExec) lastFaultKind(upto int) string {
 		if st.Run != nil {
 			if len(st.Run.Faults) > 0 {
 				kind = st.Run.Faults[0].Kind
+				if kind != "kill" {
+					kind = "io-error"
+				}
 			}
 			if st.Run.PowerLoss != nil {
 				kind = "powerloss"
